@@ -73,6 +73,7 @@ structure Thread where
   ptJob : Option Nat := none        -- the job of the yield point the thread is at
   ctx : String := ""                -- which runAux invocation an executor is in: init | wake | term
   bg : Bool := false                -- run(inBackground = true)
+  inFlight : Bool := false          -- released from its yield point and not yet parked at the next one
   deriving Repr, Inhabited
 
 structure Snap where
@@ -399,7 +400,7 @@ def stepJobThread (s : St) (role pt : String) (job : Option Nat) : M St := do
 /-- Release of a parked goroutine: the part of its next segment that other goroutines can observe before this one
     reaches its next yield point (everything that precedes a blocking operation, a callback, or an action that wakes
     another goroutine). -/
-def stepRelease (s : St) (role pt : String) : M St := do
+def stepReleaseCore (s : St) (role pt : String) : M St := do
   let t := getThread s role
   let kindRef (j : Job) : String := match j.viaGo with | some f => "f" ++ toString f | none => "-"
   if role.startsWith "T" || role.startsWith "I" then
@@ -475,6 +476,12 @@ def stepRelease (s : St) (role pt : String) : M St := do
                   { j with g := .done, cancelled := true })
   | _ => pure s
 
+/-- a release: the effects that are certain to happen before anything else, and the thread is in flight from now on -/
+def stepRelease (s : St) (role pt : String) : M St := do
+  let s ← stepReleaseCore s role pt
+  if role.startsWith "T" || role.startsWith "I" then pure s
+  else pure (setThread s { getThread s role with inFlight := true })
+
 def stepY (s : St) (role pt : String) (job : Option Nat) (obs : Snap) (now : Nat) : M St := do
   if role.startsWith "T" || role.startsWith "I" then stepJobThread s role pt job
   else
@@ -486,9 +493,14 @@ def stepY (s : St) (role pt : String) (job : Option Nat) (obs : Snap) (now : Nat
       if pt == "run.enter" then
         { t2 with bg := role.startsWith "L" || (t2.call.head? == some "startfg") }
       else t2
-    let s3 := setThread s2 { t3 with pc := pt, ptJob := job, lastTime := now }
+    let s3 := setThread s2 { t3 with pc := pt, ptJob := job, lastTime := now, inFlight := false }
     if isControlled role then
       let m := snapOf s3
+      -- A loop goroutine released from run.exit that found stopLock held (by a Stop/StopNoWait parked inside the
+      -- lock) stores running = false only after that thread has been released too: from then on both run, and a
+      -- snapshot another thread takes before the loop goroutine parks at run.done may see either value.
+      let exiting := s3.threads.any fun u => u.role != role && u.inFlight && u.pc == "run.exit"
+      let m := if exiting && m.running && !obs.running then { m with running := false } else m
       if m == obs then pure s3
       else
         let d := (if m.aux != obs.aux then ["auxJobs"] else []) ++ (if m.token != obs.token then ["token"] else []) ++
